@@ -497,6 +497,11 @@ def make_table(rng, awkward=None, pos=None, n_rows=None, n_cols=None, multi_ok=T
     target_done = False
     for _ in range(rng.choice([1, 1, 1, 2])):
         bn = name(rng, bnames)
+        if rng.random() < 0.12:
+            # leading / inner / trailing blanks and tabs in a block name; and the stripped twin next to it
+            bn2 = rng.choice([bn + " ", bn + "\t", bn + "  ", " " + bn, bn + " x", bn + "\xa0"])
+            if bn2 not in bnames:
+                bn = bn2
         bnames.append(bn)
         cats = []
         cnames = []
@@ -825,7 +830,10 @@ def eqrows_case(rng):
         a, b = b, a
     ops = []
     for level in EQ_LEVELS:
-        for sa, sb in (("f", "f"), ("p", "p"), ("f", "p")):
+        # "w": built in memory from a NumPy string array whose item size is wider than the longest value
+        # (an annotation array such as 'U5', a slice of a longer table); text flavour
+        pairs = [("f", "f"), ("p", "p"), ("f", "p")] + ([("w", "p"), ("p", "w"), ("w", "f")] if flav == "t" and a and b else [])
+        for sa, sb in pairs:
             if not a or not b:
                 if flav != "b" or level not in ("data", "column") or (sa, sb) != ("f", "f"):
                     continue
@@ -866,6 +874,12 @@ def corpus():
             cols[pos[1]][1][pos[0]] = cell_of(v)
             out.append(table_case([["blk", [["cat", cols]]]], kind="table/corpus"))
     out.append({"kind": "container/bblock", "ops": ["cnew bblock a=P1,b=R2", "cdel a", "citer", "cdel a", "cdel zz", "clen"]})
+    # block names that end in white space, alone and next to their stripped twin (two different keys)
+    for names in (["x "], ["tab\t"], ["x", "x "], ["x ", "x"], ["x  ", "x ", "x"], [" lead", "lead"], ["in ner"], ["nb\xa0", "nb"]):
+        t = [[bn, [["cat", [["k", [["p", "of " + repr(bn)], ["p", "v"]]]]]]] for bn in names]
+        out.append(table_case(t, kind="table/block-name-blank"))
+    out.append({"kind": "eqrows/t", "ops": [f"eqrows t {lv} {sa} {sb} {enc_list(['HOH', 'NA', 'ALA'])} {enc_list(['HOH', 'NA', 'ALA'])}"
+                                            for lv in EQ_LEVELS for sa, sb in (("w", "p"), ("p", "w"), ("w", "f"), ("w", "w"))]})
     for flav in "tb":
         out.append({"kind": "rowcount/" + flav, "ops": [f"rcnew {flav} a=2", "rcser", "rcset a 3", "rcser", "rccount"]})
         out.append({"kind": "rowcount/" + flav, "ops": [f"rcnew {flav} a=2,b=2", "rccount", "rcset a 3", "rcset b 3", "rccount", "rcser"]})
@@ -1116,7 +1130,10 @@ def _eqrows_obj(flav, level, state, vals, mask="-"):
             f = pdbx.BinaryCIFFile({"b": pdbx.BinaryCIFBlock({"c": pdbx.BinaryCIFCategory({"v": col})})})
         return {"file": f, "block": f["b"], "category": f["b"]["c"], "column": f["b"]["c"]["v"]}[level]
     if flav == "t":
-        f = pdbx.CIFFile({"b": pdbx.CIFBlock({"c": pdbx.CIFCategory({"v": pdbx.CIFColumn(list(vals))})})})
+        data = list(vals)
+        if state == "w":
+            data = np.array(list(vals), dtype="U" + str(max(len(v) for v in vals) + 5))
+        f = pdbx.CIFFile({"b": pdbx.CIFBlock({"c": pdbx.CIFCategory({"v": pdbx.CIFColumn(data)})})})
         if state == "p":
             f = pdbx.CIFFile.deserialize(f.serialize())
     else:
@@ -1649,6 +1666,10 @@ def _eqrows_oracle(case):
                 return [("C06/container/binary/eq-unserialised-encoding",
                          f"{op}: equal tables, one built in memory and one read back, compare unequal")]
             flav = "text" if w[1] == "t" else "binary"
+            if "w" in (w[3], w[4]):
+                return [(f"C06/container/{flav}/eq-item-size",
+                         f"{w[2]} level, {w[3]} vs {w[4]} (w = NumPy string array wider than its longest value): "
+                         f"{dec_list(w[5])} == {dec_list(w[6])} gave {got!r}, the tables are {'equal' if exp else 'different'}")]
             return [(f"C06/container/{flav}/eq-row-count",
                      f"{w[2]} level, {w[3]} vs {w[4]}: {dec_list(w[5])} == {dec_list(w[6])} gave {got!r}, the tables are "
                      f"{'equal' if exp else 'different'}")]
